@@ -63,7 +63,7 @@ def run(ctx):
     search_only = getattr(ctx, 'search_only', False)
     cases = codec.gen_cases(ctx, ctx.n(100, 2000), depth=3)
     cases += codec.presence_grid_cases(ctx, every=3 if ctx.tier == 'quick' else 1)     # every OPTIONAL/DEFAULT pattern, also around an untagged CHOICE
-    cases += codec.default_constructed_cases(ctx) + codec.mixed_form_sibling_cases(ctx)[::3]   # round 7
+    cases += codec.default_constructed_cases(ctx) + codec.mixed_form_sibling_cases(ctx)[::3] + codec.tagged_choice_in_choice_cases(ctx)   # round 7
     exprs, meta = [], []
     for c in cases:
         cdc = ctx.rng.choice(['BER', 'BER', 'CER', 'DER'])
